@@ -970,7 +970,13 @@ def rule_A1(F, R):
             seen.add(kind)
             writes = [e for e in st if re.search(r"::(set_task|create_task|delete_task)$", e["callee"])]
             absent = any(o == "None" for (a, o, _bb) in p.atoms if a[0] == "variant" and a[1][0] == "F" and _has(a[1], lambda v: v[0] == "C" and v[2] in F.bodies))
-            if writes:
+            # the documented rule looks at the task and the new value only: an Update is applied whatever it
+            # says the previous value was (old_value is a record for undo, taken from the caller's copy of the
+            # task, which may be stale) and whatever its timestamp
+            extra = [(a, o) for (a, o, _bb) in p.atoms if _has(a, lambda v: v[0] == "F" and len(v) > 3 and v[3] in ("old_value", "timestamp") and v[2] == "Update")]
+            if extra:
+                R.violation("A1", subj, "update-conditional-on-old-value", "whether the Update is applied depends on `%s` = %s: an update recorded through a stale copy of the task (old_value equal to the new value) is logged and synchronised but not applied locally" % (show_atom(extra[0][0])[:100], extra[0][1]), w)
+            elif writes:
                 R.violation("A1", subj, "update-writes-directly", "the Update arm writes to storage directly instead of through the cache: %s" % desc, w)
             else:
                 R.ok("A1", desc + (" (task absent: nothing written)" if absent else ""), w)
@@ -1223,3 +1229,83 @@ def rule_L2(F, R):
             else:
                 R.ok("L2", "%s hands its whole batch to one TaskDb commit" % p.split("::")[-1], where(body, i))
     R.floor("L2", "Replica methods calling TaskDb::commit_operations", n, 1)
+
+
+def rule_ERR(F, R):
+    R.begin("ERR", "error discipline of the local actions (batch application, commit, undo, working-set rebuild, snapshot application): the result of every call that writes the storage is examined, and a reported error ends the action with that failure. A swallowed error lets the transaction commit with the failed step missing (a task whose Delete is in the log still exists; the batch is neither whole nor absent)")
+    import roles
+    writers = roles.writer_methods(F)
+
+    def is_writer(name):
+        return name.startswith(TXN + "::") and name.split("::")[-1] in writers
+    targets = []
+    aof = roles.apply_operations_fn(F)
+    if aof:
+        targets.append(aof)
+    asf = roles.apply_snapshot_fn(F)
+    if asf:
+        targets.append(asf)
+    rb = find_rebuild(F)
+    if rb is not None:
+        targets.append(rb["path"])
+    for p, b in F.bodies.items():
+        if b["kind"] in ("Fn", "AssocFn") and p.startswith("taskdb::") and F.owner(p) == p:
+            rbody = F.real_body(p)
+            if rbody is None or rbody["path"] in targets or p in targets:
+                continue
+            cs = [t for (_i, t) in cfg_of(rbody).calls()]
+            if any(any(x.endswith("StorageTxn::commit") for x in call_names(t)) for t in cs) and not any(any(x.endswith("server::types::Server::add_version") for x in call_names(t)) for t in cs):
+                targets.append(p)
+        # helper closures / nested fns of the batch application (flush / get through the cache)
+    if aof:
+        for p in F.bodies:
+            if p.startswith(F.owner(aof) + "::") and F.bodies[p]["kind"] in ("Fn",) and p not in targets:
+                targets.append(p)
+    n = 0
+    for tp in sorted(set(targets)):
+        body = F.real_body(tp) or F.bodies.get(tp)
+        if body is None or not body.get("blocks"):
+            continue
+        c = cfg_of(body)
+        try:
+            paths = SymExec(body, c, max_paths=6000).run()
+        except Exception as e:
+            R.violation("ERR", tp, "table-extraction", "cannot enumerate the paths of %s: %s" % (tp, e), where(body))
+            continue
+        swallowed = {}
+        ignored = {}
+        examined = set()
+        for p in paths:
+            failed = p.end[0] == "return" and p.ret and ((p.ret[0] == "A" and p.ret[2] == "Err") or _err_residual(p.ret))
+            for e in p.events:
+                if not any(is_writer(x) for x in e["names"]):
+                    continue
+                step = e["callee"].split("::")[-1]
+                examined.add(step)
+                tests = [(a, o) for (a, o, _bb) in p.atoms if _has(a, lambda v: v[0] == "C" and v[1] == e["id"])]
+                returned = p.ret is not None and _has(p.ret, lambda v: v[0] == "C" and v[1] == e["id"])
+                later = any(e2["id"] > e["id"] for e2 in p.events) or p.end[0] in ("backedge",) or (p.end[0] == "return" and not returned)
+                if not tests and not returned and later:
+                    ignored.setdefault(step, p)
+                for (a, o) in tests:
+                    if a[0] == "variant" and o in ("Err", "Break") and not failed:
+                        swallowed.setdefault(step, p)
+        for step in sorted(examined):
+            n += 1
+            if step in ignored:
+                R.violation("ERR", F.owner(tp), "result-ignored:" + step, "%s: the result of %s is never examined on a path that goes on: a failure of the storage is not noticed and the action completes without that step" % (tp.split("::")[-1], step), where(body, ignored[step].blocks[-1]))
+            elif step in swallowed:
+                R.violation("ERR", F.owner(tp), "error-swallowed:" + step, "%s: an error of %s does not end the action with that failure" % (tp.split("::")[-1], step), where(body, swallowed[step].blocks[-1]))
+            else:
+                R.ok("ERR", "%s: the result of %s is examined and its error ends the action" % (tp.split("::")[-1], step), where(body))
+    R.floor("ERR", "storage-writing steps examined in the local actions", n, 10)
+
+
+def _err_residual(v, depth=0):
+    if depth > 6 or not isinstance(v, tuple):
+        return False
+    if v and v[0] == "F" and len(v) > 2 and v[2] in ("Err", "Break"):
+        return True
+    if v and v[0] == "C" and v[2].endswith("from_residual"):
+        return True
+    return any(_err_residual(x, depth + 1) for x in v if isinstance(x, tuple))
